@@ -278,6 +278,7 @@ type Cop struct {
 func (cw *CycleWorld) Reconstruct() []Cop {
 	cops := []Cop{}
 	var cur *Cop
+	curAct := int64(0)
 	closed := true
 	flush := func(to int) {
 		if cur != nil {
@@ -296,9 +297,12 @@ func (cw *CycleWorld) Reconstruct() []Cop {
 			cur = &Cop{Kind: 2, Job: job, Places: [][2]int64{{e.Task, e.Node}}, From: i}
 			closed = true
 		case act == 1 && placing:
-			if cur == nil || closed || cur.Kind != 1 || cur.Job != job {
+			// a new attempt also starts with every new action of the list: a statement kept by one
+			// allocate run is not continued by the next one
+			if cur == nil || closed || cur.Kind != 1 || cur.Job != job || e.Action != curAct {
 				flush(i)
 				cur = &Cop{Kind: 1, Job: job, From: i}
+				curAct = e.Action
 				closed = false
 			}
 			cur.Places = append(cur.Places, [2]int64{e.Task, e.Node})
